@@ -83,12 +83,13 @@ def tmpl(I, name, v=2):
 TEMPLATES_WF = ['field', 'keys', 'field2', 'ack', 'ackthen', 'binary', 'bin2', 'list', 'list4', 'bin0', 'listerr', 'two', 'okok', 'long', 'longbin']
 
 # ---------------------------------------------------------------------------- sessions
-def run_session(I, flavour, body, cuts, cap, max_receives=4, greeting=GREETING, pending=False):
+def run_session(I, flavour, body, cuts, cap, max_receives=4, greeting=GREETING, pending=False, interrupt_at=None):
     set_cap(I, cap)
     st = list(greeting) + list(body)
     g = len(greeting)
     cs = sorted(set([g] + [g + c for c in cuts]))
     t = Transport(st, cs)
+    t.interrupt_at = interrupt_at
     if flavour == 'sync':
         co, outs, conn = sync_session(I, t, max_receives)
     else:
@@ -169,6 +170,9 @@ def instances_for(prop, tier, seed):
             for flav in ('sync', 'async'):
                 out.append({'t': tname, 'flav': flav, 'cap': 8 if tname.startswith('long') else (4096 if flav == 'async' else 8), 'v': 1})
         out.append({'t': 'greetcut', 'flav': 'sync', 'cap': 8}); out.append({'t': 'greetcut', 'flav': 'async', 'cap': 8})
+        for tname in ('two', 'list', 'field2'):
+            for flav in ('sync', 'async'):
+                out.append({'t': tname, 'flav': flav, 'cap': 8 if flav == 'sync' else 4096, 'v': 1, 'interrupt': True})
     elif prop == 'C18':
         for n in ((0, 1, 2, 3) if q else (0, 1, 2, 3, 4, 5)):
             for flav in ('sync', 'async'):
@@ -444,14 +448,22 @@ def run_c10(P, res, pl):
             I._cuts = [pos] if 0 < pos < len(body) else []
         else:
             I._cuts = [] if seg == 0 else list(range(1, len(body)))
-        co, outs, tr, conn = run_session(I, pl['flav'], body, I._cuts, pl['cap'], max_receives=5)
+        I._intr = None
+        if pl.get('interrupt'):
+            # one read call (a symbolic one of the first four after the greeting) fails with ErrorKind::Interrupted: a read error is
+            # not an end of stream - it has to surface as that I/O error, never as a clean close or an unexpected EOF
+            I._intr = 1 + I.ctx.choose(4, 'interrupt')
+        co, outs, tr, conn = run_session(I, pl['flav'], body, I._cuts, pl['cap'], max_receives=5, interrupt_at=I._intr)
+        if I._intr is not None:
+            I._intr_hit = tr.read_calls > I._intr
         return (want, status), co, outs
     for pr in explore(P, harness):
         res.paths += 1
         ctx = pr.ctx
         I = pr.interp
         body = I._body
-        rec = lambda: record(ctx, body, {'flav': pl['flav'], 'cuts': getattr(I, '_cuts', []), 'cap': pl['cap'], 'check': 'eof', 'rawgreeting': t == 'greetcut'})
+        rec = lambda: record(ctx, body, {'flav': pl['flav'], 'cuts': getattr(I, '_cuts', []), 'cap': pl['cap'], 'check': 'eof', 'rawgreeting': t == 'greetcut',
+                                         'interrupt': getattr(I, '_intr', None)})
         if pr.kind == 'panic':
             res.violations.append({'what': 'panic: ' + pr.error.msg[:100], 'input': rec()}); continue
         want, co, outs = pr.value
@@ -465,8 +477,21 @@ def run_c10(P, res, pl):
             if status == 'invalid':
                 res.cls('cut stream invalid')       # the cut made a malformed stream (free holes): not the subject here
                 continue
-            bad = cmp_outcomes(ctx, outs, w, 5)
-            res.cls('cut on ' + status, nontrivial=True)
+            if getattr(I, '_intr', None) is not None and getattr(I, '_intr_hit', False):
+                # the responses before the interrupted read are the reference's, the call that hit it reports the I/O error
+                k = len(outs) - 1
+                bad = None
+                if co.kind != 'connected':
+                    if co.kind != 'ioerror':
+                        bad = 'a read interrupted by a signal during connect is reported as %s' % co.kind
+                elif not outs or outs[-1].kind != 'ioerror':
+                    bad = 'a read interrupted by a signal (ErrorKind::Interrupted) is reported as %s' % (outs[-1].kind if outs else 'nothing')
+                elif cmp_outcomes(ctx, outs[:k], w[:k], 5):
+                    bad = 'responses before the interrupted read differ from the reference: ' + str(cmp_outcomes(ctx, outs[:k], w[:k], 5))
+                res.cls('interrupted read', nontrivial=True)
+            else:
+                bad = cmp_outcomes(ctx, outs, w, 5)
+                res.cls('cut on ' + status, nontrivial=True)
         if bad:
             res.violations.append({'what': bad, 'input': rec()})
         if len(res.samples) < 1:
@@ -560,9 +585,9 @@ def native_outcomes(out):
             outs.append(cur); cur = None
     return outs
 
-def native_session(stream, flav, cuts, small, max_receives=5, again=False):
-    # `<n>+`: after an error receive is called once more (it must not panic)
-    out = run_replay(['recv', flav, hexs(stream), str(max_receives) + ('+' if again else '')] + [str(c) for c in cuts], small=small)
+def native_session(stream, flav, cuts, small, max_receives=5, again=False, interrupt=None):
+    # `<n>+`: after an error receive is called once more (it must not panic); `i<k>`: read call k fails once with ErrorKind::Interrupted
+    out = run_replay(['recv', flav, hexs(stream), str(max_receives) + ('+' if again else '')] + [str(c) for c in cuts] + (['i%d' % interrupt] if interrupt is not None else []), small=small)
     if 'panic' in out:
         return 'panic', [], out
     cv = out.get('connect', ['?'])[0]
@@ -587,7 +612,7 @@ def replay_for(prop, rec):
     full = stream if raw else bytes(GREETING) + stream
     g = 0 if raw else len(GREETING)
     cuts = sorted(set(([g] if g else []) + [g + c for c in inp.get('cuts', [])]))
-    co, outs, out = native_session(full, inp['flav'], cuts, small, again=bool(inp.get('again')))
+    co, outs, out = native_session(full, inp['flav'], cuts, small, again=bool(inp.get('again')), interrupt=inp.get('interrupt'))
     if co == 'panic':
         return True, 'native run panics: ' + unhex(out['panic'][0]).decode('utf-8', 'replace')[:100]
     if check == 'segmentation':
@@ -614,6 +639,11 @@ def replay_for(prop, rec):
             return co != 'eof', 'native connect on a cut greeting: %s' % co
         return False, 'native run returns %s' % co
     want, status = expected_from_reference(D, list(stream))
+    if inp.get('interrupt') is not None:
+        if co != 'connected':
+            return co != 'ioerror', 'native: connect hit the interrupted read and reports %r' % co
+        last = out.get('out', ['?'])[-1] if out.get('out') else '?'
+        return (not last.startswith('ioerror')), 'native: the call that hit the interrupted read reports %r (outcomes %s)' % (last, out.get('out'))
     if check == 'robust' and status == 'invalid':
         k = len(want) - 1
         bad = len(outs) <= k or outs[k].kind != 'invalid'
